@@ -265,9 +265,13 @@ fn check_spec_inner(ctx: &Ctx, spec: &LSpec, inputs: &[String], idmaps: bool, st
         uniq.sort();
         uniq.dedup();
         uniq.push("FOREIGN".to_string());
-        for mask in 0u32..(1 << uniq.len()) {
-            let m: HashMap<String, u32> = uniq.iter().enumerate().filter(|(i, _)| mask & (1 << i) != 0).map(|(i, n)| (n.clone(), 100 + i as u32)).collect();
-            maps.push(Some(m));
+        // ids far from the rule indices (100, 101, ..) and ids that coincide with rule indices
+        // (0, 1, ..: a rule without a name keeps the id it was given at construction)
+        for base in [100u32, 0] {
+            for mask in 0u32..(1 << uniq.len()) {
+                let m: HashMap<String, u32> = uniq.iter().enumerate().filter(|(i, _)| mask & (1 << i) != 0).map(|(i, n)| (n.clone(), base + i as u32)).collect();
+                maps.push(Some(m));
+            }
         }
     }
     for m in &maps {
